@@ -5,6 +5,6 @@ CONSTANTS
   PlainAlpha = {"a", "0", "-", "_", ".", "+", "A", "!"}
   PlainMax = 5
   RleAlpha = {"a", "0", "-", "_", "+", "A", "!", "."}
-  RleLens = {1, 2, 9, 10, 11, 39, 40, 41}
+  RleLens = {1, 2, 10, 11, 40, 41}
   RleMaxRuns = 3
 CHECK_DEADLOCK FALSE
